@@ -16,12 +16,23 @@ Tie: two channels fed the same histories.
            times, and a pre/post-hook monitor of the calling contract; judged by
            Spec/AtRest.lean.
 A listing the checker refuses is a broken proof obligation; the failing-input search then
-runs the depth oracle on contexts derived from the refused function."""
+runs the depth oracle on contexts derived from the refused function.
+
+Re-entrancy (compiled code is shared by all activations): Generated/CodeWrites.lean (extract/
+ex_codewrites.go) lists every field of a compiled-code object (instruction structs, Loop,
+SexpFunction) written outside its construction and every package-level side table of such
+objects; Props/C04.lean proves the lists equal to committed, justified ones
+(code_writes_exact, code_globals_exact) and proves, for verified code, that the static scope
+count of break/continue is right for every activation (break_lands_at_activation_depth,
+same_pc_same_depth, nested_activation_depths, call_contract_of_verified_callee,
+exec_break_continue_static). Stream `reent` of both channels (harness/gen_reent.go) runs
+recursion through loop bodies / nested scopes / macros / lazy thunks / tail calls under the
+depth oracle: that is where the failing input comes from when one of the tables breaks."""
 import json, os, re, subprocess
 import vcommon as V
 
 META = dict(
-    text="Lean 4. Spec/Balanced.lean defines a stack/scope typing of zygomys bytecode over the REAL instruction set (one constructor per Go type implementing Instruction; coverage of the regenerated type list is proved by decide): per pc, scopes opened since entry, operands in the function's own area and a stack of open marker / stack-mark regions with exact / at-least / junk counts; a transfer function, an approximation order, a work-list inference and a LOCAL verifier of annotations (check = verify . infer). Props/C04.lean proves checker_sound: for any annotation the verifier accepts, every execution of the function in a stack-effect machine (each instruction pops/pushes what its Execute method does; calls obey 'pop the arguments, push one result, leave scopes alone') never touches the caller's part of the data stack, never pops a caller's scope, and at ret has exactly one value on top of the caller's stack, the caller's scope and address depth (induction over execution steps; unbounded code size, path length, loop iterations); tail_call_reenters_at_entry_depth (back at pc 0 = entry depths). gen_balanced (+ gen_fragment, gen_balanced_loops, gen_balanced_functions, generated_function_balanced): by ONE mutual induction over the eight compile functions of Model/Gen.lean, for every program of ALL core forms - literals, symbols, arrays, calls, begin, def, set, cond, and/or, let, letseq, newScope, selector assignment, for (labelled or not), break/continue (labelled or not) in every position the generator accepts and out of any number of nested scopes, fn/defn at any nesting depth - the top-level code is accepted by the verifier AND every function template allocated on the way (prologue, formals fixed or variadic, body compiled with the tail flag on, epilogue, self tail calls = TailGuard, operands inline, PrepareCall, RemoveScope x (scopes+1), Goto 0, ordinary call behind the jump) is a verified function; the invariant GInv relates Ctx.scopes / the compile-time loop stack / the loop table to the abstract state (scopes k, frames, base). Side conditions: non-empty let/fn/defn bodies (the real builders refuse an empty function body), no call headed by the empty name or a generated name __anon<n>, loop-stack ids exist; without them the full statement GenBalanced is refuted for the model (genBalanced_needs_nonempty_bodies). Proved is the existence of an annotation the verifier accepts (the hypothesis of checker_sound), not that the work-list inference finds it. gen_balanced_partial / gen_balanced_operand (loop-free core, every loop table; helper function Generate(e)+ret) are kept. tail_site_depths (Proofs/TailSite.lean): in any verified function a state at a tail sequence has k+1 scopes above the caller's and, behind PrepareCall, exactly the formals' worth of operands (used by C09: bodyBalanced_of_matched). exec_refines_partial (Proofs/VMRefine.lean): the VM model refines the stack-effect machine instruction by instruction (every instruction but callArr/callExpr/ret; envToStack, tailGuard, prepareCall, brk, cont with a side condition each), tying the effect table to the VM model; the full statement ExecRefines (calls by contract: induction over nested runs) is stated. calling_contract (Proofs/RunCall2.lean, RunPrim.lean): the refinement across nested runs, by induction on the fuel over all 13 functions of the VM's mutual block, for normal returns: from a state with the table invariant WF (every function object verified, every stored value free of stack-marks with valid function ids; kept because compiling at run time only adds verified functions) every instruction keeps the stack of activations described by the checker's invariant (call = push, ret = pop at the caller's depths with one value), runLoop ends with one value on the base stacks, nested evaluations (evalCallExpr, builtins incl. apply/map/force, applyFn, forceLazy) leave data/scope/address/set-aside stacks exactly as they were, callUser pops its operands and pushes one value. run_at_rest_of_invariant / run_at_rest_reachable (Proofs/RunMain.lean): the top-level text is the bottom activation of the outermost loop (no return address, ends by running off its end); its annotation is the generator's balanced fragment PLACED behind the old code of mainfunc (the fragment calculus is position-generic, nothing is shifted; the only fact needed about old code is that loop ids are unique); hence for every state with the table invariant WF, the mainfunc facts MainOK and at rest - in particular every state reachable from the fresh interpreter by any number of texts of the grammar that returned values (ServedState) - a text of the grammar that returns a value leaves the interpreter at rest (no operand, only the global scope, no return address, no loop record, pc at the end) with the invariant restored, for every fuel. RunAtRest over EVERY state at rest (whatever its function table holds) is not provable without the table invariant and stays a def; states after erroneous texts are not covered (error outcomes of the calling contract are not proved). eval_empty_nil is proved for every state at rest. OneAtATime (equal values together vs one at a time) is stated, not proved: the two runs allocate function ids in different orders, it needs a simulation up to renaming; one_at_a_time_partial covers the generator's half. The property on the real code is decided per run: the verified checker is run on the structured listing of every function the real generator compiles for generated programs of the full surface language and for the repo's tests/*.zy (translation validation, ~65 000 functions quick / ~2.5 million thorough), and a depth oracle watches the four stacks, EvalString(\"\"), together-vs-one-at-a-time, N-fold histories and the calling contract of every call on the real interpreter.",
+    text="Lean 4. Spec/Balanced.lean defines a stack/scope typing of zygomys bytecode over the REAL instruction set (one constructor per Go type implementing Instruction; coverage of the regenerated type list is proved by decide): per pc, scopes opened since entry, operands in the function's own area and a stack of open marker / stack-mark regions with exact / at-least / junk counts; a transfer function, an approximation order, a work-list inference and a LOCAL verifier of annotations (check = verify . infer). Props/C04.lean proves checker_sound: for any annotation the verifier accepts, every execution of the function in a stack-effect machine (each instruction pops/pushes what its Execute method does; calls obey 'pop the arguments, push one result, leave scopes alone') never touches the caller's part of the data stack, never pops a caller's scope, and at ret has exactly one value on top of the caller's stack, the caller's scope and address depth (induction over execution steps; unbounded code size, path length, loop iterations); tail_call_reenters_at_entry_depth (back at pc 0 = entry depths). gen_balanced (+ gen_fragment, gen_balanced_loops, gen_balanced_functions, generated_function_balanced): by ONE mutual induction over the eight compile functions of Model/Gen.lean, for every program of ALL core forms - literals, symbols, arrays, calls, begin, def, set, cond, and/or, let, letseq, newScope, selector assignment, for (labelled or not), break/continue (labelled or not) in every position the generator accepts and out of any number of nested scopes, fn/defn at any nesting depth - the top-level code is accepted by the verifier AND every function template allocated on the way (prologue, formals fixed or variadic, body compiled with the tail flag on, epilogue, self tail calls = TailGuard, operands inline, PrepareCall, RemoveScope x (scopes+1), Goto 0, ordinary call behind the jump) is a verified function; the invariant GInv relates Ctx.scopes / the compile-time loop stack / the loop table to the abstract state (scopes k, frames, base). Side conditions: non-empty let/fn/defn bodies (the real builders refuse an empty function body), no call headed by the empty name or a generated name __anon<n>, loop-stack ids exist; without them the full statement GenBalanced is refuted for the model (genBalanced_needs_nonempty_bodies). Proved is the existence of an annotation the verifier accepts (the hypothesis of checker_sound), not that the work-list inference finds it. gen_balanced_partial / gen_balanced_operand (loop-free core, every loop table; helper function Generate(e)+ret) are kept. tail_site_depths (Proofs/TailSite.lean): in any verified function a state at a tail sequence has k+1 scopes above the caller's and, behind PrepareCall, exactly the formals' worth of operands (used by C09: bodyBalanced_of_matched). exec_refines_partial (Proofs/VMRefine.lean): the VM model refines the stack-effect machine instruction by instruction (every instruction but callArr/callExpr/ret; envToStack, tailGuard, prepareCall, brk, cont with a side condition each), tying the effect table to the VM model; the full statement ExecRefines (calls by contract: induction over nested runs) is stated. calling_contract (Proofs/RunCall2.lean, RunPrim.lean): the refinement across nested runs, by induction on the fuel over all 13 functions of the VM's mutual block, for normal returns: from a state with the table invariant WF (every function object verified, every stored value free of stack-marks with valid function ids; kept because compiling at run time only adds verified functions) every instruction keeps the stack of activations described by the checker's invariant (call = push, ret = pop at the caller's depths with one value), runLoop ends with one value on the base stacks, nested evaluations (evalCallExpr, builtins incl. apply/map/force, applyFn, forceLazy) leave data/scope/address/set-aside stacks exactly as they were, callUser pops its operands and pushes one value. run_at_rest_of_invariant / run_at_rest_reachable (Proofs/RunMain.lean): the top-level text is the bottom activation of the outermost loop (no return address, ends by running off its end); its annotation is the generator's balanced fragment PLACED behind the old code of mainfunc (the fragment calculus is position-generic, nothing is shifted; the only fact needed about old code is that loop ids are unique); hence for every state with the table invariant WF, the mainfunc facts MainOK and at rest - in particular every state reachable from the fresh interpreter by any number of texts of the grammar that returned values (ServedState) - a text of the grammar that returns a value leaves the interpreter at rest (no operand, only the global scope, no return address, no loop record, pc at the end) with the invariant restored, for every fuel. RunAtRest over EVERY state at rest (whatever its function table holds) is not provable without the table invariant and stays a def; states after erroneous texts are not covered (error outcomes of the calling contract are not proved). eval_empty_nil is proved for every state at rest. OneAtATime (equal values together vs one at a time) is stated, not proved: the two runs allocate function ids in different orders, it needs a simulation up to renaming; one_at_a_time_partial covers the generator's half. Re-entrancy: compiled code (instruction structs, Loop records, SexpFunction templates) is shared by all activations of a function; Generated/CodeWrites.lean lists, from the source, every field of such an object that is written outside the function constructing it and every package-level variable holding or keyed by such objects, and code_writes_exact / code_globals_exact prove the lists equal to committed ones in which each entry says why its value does not depend on the activation (the cached FindLoop position, the lexical parent used by symbol lookup, setters used at construction, the append-only main code). For any function the verifier accepts: same_pc_same_depth (inside one activation the scope depth is entry depth + a compile-time constant of the pc), break_lands_at_activation_depth (break/continue pop exactly the static count, which is the difference of the constants, and land at THIS activation's depth; the difference to any visit of a LoopStartInstr is a constant), call_contract_of_verified_callee (the one-step call of the machine is what a run of a verified callee does at any depth - so also for the function calling itself from its own loop body), nested_activation_depths (two activations open at once differ, at the same pc, by the depth of the call site: one depth recorded per loop cannot serve both), exec_break_continue_static (VM model: exec of break/continue drops the static number of scopes and writes no compiled object; LoopStart only advances the pc). The property on the real code is decided per run: the verified checker is run on the structured listing of every function the real generator compiles for generated programs of the full surface language and for the repo's tests/*.zy (translation validation, ~65 000 functions quick / ~2.5 million thorough), and a depth oracle watches the four stacks, EvalString(\"\"), together-vs-one-at-a-time, N-fold histories and the calling contract of every call on the real interpreter; stream `reent` adds re-entrancy of every scoped construct: functions whose loop bodies (plain, labelled, nested, infix, range, macro-made) call the function again (directly, mutually, through closures, map, apply, macros, lazy thunks, eval) before / after / inside the scopes of a break or continue (labelled or not, out of 0-3 let/letseq/newScope/package scopes, six syntactic positions), recursion depth 0-4, tree walks, tail calls after non-tail self calls, macros expanding to loops (incl. expansion-time recursion), lazy thunks forced inside loops, packages re-entered, grammar-directed self-recursive functions, N-fold.",
     note="Trusted: Lean kernel; axioms propext/Classical.choice/Quot.sound. The stack-effect table `eff` (what each Execute pops/pushes) is hand-written from zygo/vm.go and tied by the `bal`+`rest` runs and by the pre/post-hook contract monitor, not extracted. The overlay lister (harness/overlay/listing.go) re-derives the helper functions of EvalCallExpression/Force with the same generator calls the VM makes; code compiled by (eval x) from run-time data is not listed (EvalFunction truncates the data stack itself). PrepareCall is modelled for the current function (a parameter that shadows the function's own name is C02's known finding). Growth of mainfunc.fun (LoadExpressions appends code for every text) is by design and not counted as growth.",
     technique="Lean 4 proof (abstract interpretation soundness + induction over the expression grammar) + per-instance translation validation of real listings by the verified checker + depth-oracle correspondence on the real interpreter",
     design_ref="DESIGN.md §7 C04, §9, §13",
@@ -144,7 +155,15 @@ def run(rep):
         "the lister re-derives callExprEval / lazyArgForce helpers by calling NewGenerator(env).Generate(expr) + ReturnInstr as EvalCallExpression / Force do; helpers whose generation fails are run-time errors, not listed; code compiled by (eval x) from run-time data is not listed",
         "PrepareCall is taken to resolve to the function being compiled (C02 known finding: a parameter shadowing the function's name)",
         "at rest = the four stack depths of the fresh interpreter; growth of mainfunc.fun is by design (LoadExpressions appends) and not judged",
+        "compiled code carries no activation state: tied to the source by the regenerated tables codeWrites / codeGlobals (syntactic: field assignments, address-taking and calls of writer methods whose receiver chain ends in a compiled-code type; objects under construction in the same function excepted). State reached through reflection, unsafe, or objects stored in non-code types (a Scope, the Zlisp struct) is not in the table; the `reent` stream of the depth oracle is the net under it",
     ]
+    try:
+        with open(os.path.join(V.BUILD, "facts.json")) as f:
+            facts = json.load(f)
+        rep.coverage["code_object_writes"] = facts.get("code_object_writes_list")
+        rep.coverage["code_object_globals"] = facts.get("code_object_globals_list")
+    except (OSError, ValueError):
+        pass
     if not (prep["ok_drv"] and prep["ok_harness"]):
         rep.violation("machinery-failure", {"what": "driver or harness did not build against the current tree",
                       "theorem_or_correspondence": "build of zydrv/zyh", "log": (prep["drv_out"] + prep["harness_out"])[-3000:]}, no_input=True)
@@ -193,6 +212,8 @@ def run(rep):
     rep.coverage["rule"] = ("histories of 1-4 texts of 1-5 forms: hand-written shapes (every defect family of DESIGN §7 C04 in top-level, "
                             "function-body, operand, array-element, let-binding, cond-arm, and/or-arm and loop-body position), grammar-directed programs of "
                             "the full surface language (core forms, struct/func/method/interface/var/package, builders, macros with syntax-quote templates, "
-                            "range, infix blocks, labelled break/continue), a malformed stream, N-fold histories; the repo's tests/*.zy compile-only through `bal`; "
+                            "range, infix blocks, labelled break/continue), a malformed stream, N-fold histories; stream reent: a full cross product {10 ways of recursing} x {7 loop shapes} "
+                            "x {break, continue} x {4 orders of recursive call and exit} plus random points of {exit target} x {0-3 scopes of 4 kinds} x {6 exit positions} x {depth 0-4}, "
+                            "tree walks, tail calls after non-tail self calls, macro / lazy-thunk / package re-entrancy, grammar-directed self-recursive functions; the repo's tests/*.zy compile-only through `bal`; "
                             "non-trivial = at least one evaluation returned a value / at least one function listed")
     V.proof_break_resolution(rep, found)
